@@ -270,8 +270,7 @@ theorem vec_law (d : Dict) (hd : Law d) (sz : Nat) (hsz : d.sized = some sz) (l 
       · simp only [hz, if_true, Res.bind_ok]
         split
         · simp
-        · apply vecElems_noFault d hd sz hsz _ s hdal (Pow2.max_mod_right hl.size_pow2 hd.align_pow2)
-          simp [hz]; omega
+        · simp
       · simp only [hz, if_false, Res.bind_ok]
         split
         · simp
